@@ -617,13 +617,16 @@ MapLines(i1, i2) ==
    MapLine("hash", <<"just a comment">>, "plain"), MapLine("blank", <<>>, "plain"),
    MapLine("row", <<i1, "x", "7">>, "plain"), MapLine("row", <<i1, "p;q", "2.5">>, "quoted"),
    MapLine("row", <<i2, "y">>, "plain"), MapLine("row", <<i2, "p; q ;r", "-3", "extra", "more">>, "spaced"),
-   MapLine("row", <<"zz", "p;q|r", "10">>, "plain"), MapLine("row", <<i2, "a|b;c", "x">>, "quoted")}
+   MapLine("row", <<"zz", "p;q|r", "10">>, "plain"), MapLine("row", <<i2, "a|b;c", "x">>, "quoted"),
+   MapLine("row", <<i1, "", "7">>, "plain")}                                   \* an explicitly empty field
 MapOpts ==
   LET O(h, i, f, s, p) == [header |-> h, ints |-> i, floats |-> f, sc |-> s, scpipe |-> p] IN
   {O(<<>>, <<>>, <<>>, <<>>, <<>>), O(<<>>, <<"k2">>, <<>>, <<"k1">>, <<>>), O(<<>>, <<>>, <<"k2">>, <<>>, <<"k1">>),
    O(<<"ID", "c1">>, <<>>, <<>>, <<"c1">>, <<>>), O(<<"ID", "c1", "c2">>, <<"c2">>, <<>>, <<>>, <<>>),
    O(<<"ID", "k1", "k2", "k3">>, <<"k1", "k2">>, <<"k2">>, <<>>, <<>>),
-   O(<<"ID", "taxonomy", "n">>, <<"n">>, <<>>, <<"taxonomy">>, <<>>), O(<<"ID", "taxonomy">>, <<>>, <<>>, <<"taxonomy">>, <<>>)}
+   O(<<"ID", "taxonomy", "n">>, <<"n">>, <<>>, <<"taxonomy">>, <<>>), O(<<"ID", "taxonomy">>, <<>>, <<>>, <<"taxonomy">>, <<>>),
+   \* a list conversion on a column that short rows do not reach
+   O(<<>>, <<>>, <<>>, <<"k2">>, <<>>), O(<<>>, <<>>, <<>>, <<"k1">>, <<"k2">>)}
 \* all line sequences of length <= n
 RECURSIVE LineSeqs(_, _)
 LineSeqs(L, n) == IF n = 0 THEN {<<>>} ELSE LineSeqs(L, n - 1) \cup {Append(s, l) : s \in LineSeqs(L, n - 1), l \in L}
